@@ -370,6 +370,12 @@ func Facts(repo string) (string, error) {
 		fmt.Fprintf(&sb, "-- probeConnWrite failed: %s\n", strings.ReplaceAll(cerr.Error(), "\n", " "))
 	}
 	fmt.Fprintf(&sb, "/-- probe: `Session.Conn().Write(\"abcdefgh\")` on a transport that is not a net.Conn and answers with the\nscript (bytes accepted, 0 = no error / 1 = temporary / 2 = timeout / 3 = permanent): reported count, was an\nerror reported, the bytes the transport accepted -/\ndef connWriteProbe : Option (List (List (Nat × Nat) × Nat × Bool × List Nat)) := %s\n", cp)
+	lpr, lerr := probeLock()
+	if lerr != nil {
+		lpr = "none"
+		fmt.Fprintf(&sb, "-- probeLock failed: %s\n", strings.ReplaceAll(lerr.Error(), "\n", " "))
+	}
+	fmt.Fprintf(&sb, "/-- probe: every exported method of `*xmpp.Session` (found by reflection) called on a fresh real session with\nsynthesized arguments: (method, did it write to the connection, was the output lock held at EVERY write) -/\ndef lockProbe : Option (List (String × Bool × Bool)) := %s\n", lpr)
 	sb.WriteString("\nend XmppModel.Generated.C05\n")
 	return sb.String(), nil
 }
